@@ -166,6 +166,20 @@ def run_case(case):
         i, j = np.unravel_index(np.argmax(ed), ed.shape)
         vs.append(viol(pre + "|distance", f"distance of pair ({i},{j}) is not the Euclidean distance", case,
                        expected=float(XD[i, j]), observed=float(D[i, j])))
+    # the same quantities reached through the FullGrid-level matrices (one rotation, factor 1): the saved files come from there
+    if N <= 16 and not is_open and len(r) <= 3:
+        try:
+            from molgri.space.fullgrid import FullGrid
+            fg = FullGrid("1", gname, tname, factor=1, position_grid_cartesian=True)
+            FB, FD = fg.get_full_borders().toarray(), fg.get_full_distances().toarray()
+            FV = np.asarray(fg.get_total_volumes(), dtype=float)
+            if FB.shape != B.shape or not np.allclose(FB, B, rtol=1e-12, atol=0) or not np.allclose(FD, D, rtol=1e-12, atol=0):
+                vs.append(viol(pre + "|fullgrid_level", "FullGrid-level borders/distances (n_b=1, f=1) are not the Cartesian "
+                               "position-grid quantities", case))
+            if FV.shape != vol.shape or not np.allclose(FV, vol * np.pi ** 2, rtol=1e-12):
+                vs.append(viol(pre + "|fullgrid_volumes", "FullGrid volumes (n_b=1, f=1) are not position volume x pi^2", case))
+        except Exception as e:
+            vs.append(viol(pre + "|fullgrid_raises", f"{type(e).__name__}: {str(e)[:100]}", case))
     harness = None
     if case.get("qhull_crosscheck") and not is_open:
         inc_last = r[0] if T == 1 else r[-1] - r[-2]
